@@ -171,7 +171,7 @@ def rand_default(rng, tx, kinds=None):
 def rand_type(rng, nm, doc, enum_p=0.25):
     if doc.enums and rng.random() < enum_p:
         return am.ColType('enum', enum=rng.randrange(len(doc.enums)))
-    k = rng.choice(['plain', 'plain', 'plain', 'args', 'args', 'array', 'dotted', 'quoted'])
+    k = rng.choice(['plain', 'plain', 'plain', 'args', 'args', 'array', 'dotted', 'quoted', 'qarray'])
     base = rng.choice(['int', 'integer', 'varchar', 'text', 'timestamp', 'decimal', 'bool', 'uuid', 'jsonb'])
     if k == 'plain':
         return am.ColType('plain', base)
@@ -179,6 +179,8 @@ def rand_type(rng, nm, doc, enum_p=0.25):
         return am.ColType('args', base + rng.choice(['(255)', '(10,2)', '(10, 2)', '(10,  2)', "('a','b')", '(max)']))
     if k == 'array':
         return am.ColType('array', base + '[]')
+    if k == 'qarray':
+        return am.ColType('qarray', rng.choice([base + '(255)', base + '(10,2)', 'double precision', base + ' with time zone']) + '[]')
     if k == 'dotted':
         return am.ColType('dotted', nm('ts', 'bare') + '.' + nm('ty', 'bare'))
     return am.ColType('quoted', nm('qt', 'space'))
